@@ -133,6 +133,12 @@ def sum_of_2d_modes_backprop(modes, databar):
         cumulative gradient through to the weights vector given to sum_of_2d_modes
 
     """
+    modes = np.asarray(modes)
+    if np.iscomplexobj(modes):
+        # weights -> data is multiplication by the modes; the gradient flows
+        # back through the conjugate transpose
+        modes = modes.conj()
+
     return np.tensordot(modes, databar)
 
 
